@@ -11,6 +11,8 @@ from concurrent.futures import ThreadPoolExecutor
 
 VERIF = os.path.dirname(os.path.dirname(os.path.abspath(__file__)))
 ALL = ['C%02d' % i for i in range(1, 21)]
+# the rule modules of these eight checks (with their dependencies) are all twenty modules: enough to see every alarm once
+COVER = ['C02', 'C04', 'C06', 'C08', 'C09', 'C10', 'C17', 'C18']
 
 
 def sh(cmd, cwd, env=None):
@@ -48,7 +50,7 @@ def evaluate(name, diff, note, keep, confirm=True):
             keys = re.findall(r'^  (?:violation|unanalysable) (\S+)', r.stdout, re.M)
             return p, r.returncode, keys
         with ThreadPoolExecutor(max_workers=6) as ex:
-            for p, rc, keys in ex.map(chk, ALL):
+            for p, rc, keys in ex.map(chk, COVER if '--cover' in sys.argv else ALL):
                 if rc != 0:
                     det[p] = sorted(set(keys))[:8] or ['<exit %d>' % rc]
         res['alarms'] = det
